@@ -45,6 +45,8 @@ MonPost ==
     \* C03 whatever is answered as a refusal has changed nothing; C08 the honest next step of the log is accepted, whatever was sent before;
     \* C09 the answer is the status of the first matching rule
     /\ Check("C03", "RefusedThroughTheEndpointChangesNothing", Ev.status # 200 => Ev.unchanged)
+    \* C11: a body that is cut off (over the 16 KiB the endpoint reads) is refused, never understood as the part that fitted
+    /\ Check("C11", "OverLongBodyRefusedNotPartlyUnderstood", Ev.kind = "oversize" /\ ~IsLimited => Ev.status = 400 /\ Ev.unchanged)
     \* (a 429 excuses the endpoint only where the configured rate can explain it: the runs of this part are configured with 100000 requests/s)
     /\ (Ev.kind = "ok" /\ (~IsLimited \/ Ev.limit >= 1000) =>
           /\ Check("C08", "HonestStepAcceptedThroughTheEndpoint",
